@@ -11,6 +11,7 @@ Inductive gop := OAdd | OSub | OMul | OQuo | ORem | OLt | OGt | OLe | OGe | OEq 
 Inductive gexp :=
 | EVar (x : string) | EInt (z : Z) | EBin (o : gop) (a b : gexp) | ENeg (a : gexp) | ENot (a : gexp)
 | ECall (f : string) (args : list gexp)
+| EInput (src : string)                   (* a method call without arguments, e.g. a query of the position: a named input *)
 | EOpaque (src : string).                 (* source text outside the fragment *)
 Inductive gstmt :=
 | SAssign (x : string) (e : gexp)          (* x = e  and  x := e *)
@@ -34,6 +35,7 @@ Definition gconst (x : string) : option Z :=
   else if String.eqb x "LostScore" then Some LostScore
   else if String.eqb x "ScoreCloseToMate" then Some ScoreCloseToMate
   else if String.eqb x "killerMovesMaxPly" then Some killerMovesMaxPly
+  else if String.eqb x "DrawScore" then Some DrawScore
   else None.
 Definition b2z (b : bool) : Z := if b then 1 else 0.
 
@@ -76,6 +78,7 @@ Fixpoint eval (en : env) (e : gexp) : result Z :=
       do vs <- (fix go (l : list gexp) : result (list Z) :=
                   match l with [] => Ok [] | x :: r => do v <- eval en x; do vr <- go r; Ok (v :: vr) end) args;
       call f vs
+  | EInput src => match lookup src en with Some v => Ok v | None => Panic P_GO_UNBOUND end
   | EOpaque _ => Panic P_GO_UNSUPPORTED
   end.
 
@@ -106,3 +109,6 @@ Fixpoint exec_list (inp : env) (l : list gstmt) (en : env) : result outcome :=
   end.
 Definition run_fn (f : gfunc) (args : list Z) (inp : env) : result outcome :=
   exec_list inp (gf_body f) (combine (gf_params f) args).
+(* with package-level variables and named inputs the function reads (their values when it is entered) *)
+Definition run_fn_env (f : gfunc) (args : list Z) (globals : env) : result outcome :=
+  exec_list [] (gf_body f) (combine (gf_params f) args ++ globals).
